@@ -88,7 +88,7 @@ func topIsContainer(evs []AEv) bool {
 
 // ioDocs: valid documents in both formats from the corpus, plus truncated / corrupted ones.
 func ioDocs(c *Check, n int) []ioDoc {
-	docs := genCorpus(c, 6, "corpus")
+	docs := genCorpus(c, 5, "corpus")
 	var out []ioDoc
 	var mu sync.Mutex
 	step := len(docs)/n + 1
